@@ -12,6 +12,10 @@ type Violation struct {
 	Rule string `json:"rule"` // short stable name of the rule that failed
 	Seq  int    `json:"seq"`  // record at which it was detected
 	What string `json:"what"`
+	// Class names the input class of an open known finding the trace falls into ("" = none):
+	// "leader-after-empty-storage-restart": a bootstrap member crashed before its first persist,
+	// restarted from an empty storage (no configuration) and later became leader.
+	Class string `json:"class,omitempty"`
 }
 
 // Stats counts what a trace exercised (evidence / non-triviality).
@@ -34,6 +38,7 @@ type Stats struct {
 	AppliedAfterRestartCompared   int
 	MsgSnapSent, Delivered, Drops int
 	StaleLeaderSteps              int // steps taken by a leader whose term is below the max term
+	EmptyRestarts                 int // bootstrap members restarted from an empty storage
 }
 
 type nodeTrack struct {
@@ -50,29 +55,32 @@ type nodeTrack struct {
 
 // Oracle evaluates C01/C02/C03 on a stream of records of ONE schedule.
 type Oracle struct {
-	nodes    map[uint64]*nodeTrack
-	leaderOf map[uint64]uint64  // term -> node
-	chosen   map[uint64]EntProj // index -> entry handed out as committed somewhere
-	chosenAt map[uint64]int     // index -> seq of first hand-out
-	snapTerm map[uint64]uint64  // index -> term of a snapshot applied at that index
-	applied  map[uint64]EntProj // index -> entry applied by some application
-	maxIdx   uint64
-	V        []Violation
-	S        Stats
-	terms    map[uint64]bool
-	msgType  map[int]int
-	pending  map[uint64]*ReadyProj // Ready returned by StepNode, not yet published to the application
+	nodes        map[uint64]*nodeTrack
+	leaderOf     map[uint64]uint64  // term -> node
+	chosen       map[uint64]EntProj // index -> entry handed out as committed somewhere
+	chosenAt     map[uint64]int     // index -> seq of first hand-out
+	snapTerm     map[uint64]uint64  // index -> term of a snapshot applied at that index
+	applied      map[uint64]EntProj // index -> entry applied by some application
+	maxIdx       uint64
+	V            []Violation
+	S            Stats
+	terms        map[uint64]bool
+	msgType      map[int]int
+	pending      map[uint64]*ReadyProj // Ready returned by StepNode, not yet published to the application
+	bootMember   map[uint64]bool       // alive in record 0: bootstrapped with the full peer list
+	emptyRestart map[uint64]bool       // such a node restarted from a completely empty storage
+	tainted      string
 }
 
 func NewOracle() *Oracle {
 	return &Oracle{nodes: map[uint64]*nodeTrack{}, leaderOf: map[uint64]uint64{}, chosen: map[uint64]EntProj{},
-		chosenAt: map[uint64]int{}, msgType: map[int]int{}, pending: map[uint64]*ReadyProj{}, snapTerm: map[uint64]uint64{}, applied: map[uint64]EntProj{}, terms: map[uint64]bool{},
+		chosenAt: map[uint64]int{}, msgType: map[int]int{}, pending: map[uint64]*ReadyProj{}, bootMember: map[uint64]bool{}, emptyRestart: map[uint64]bool{}, snapTerm: map[uint64]uint64{}, applied: map[uint64]EntProj{}, terms: map[uint64]bool{},
 		S: Stats{CrashStage: map[string]int{}}}
 }
 
 func (o *Oracle) viol(prop, rule string, seq int, f string, a ...interface{}) {
 	if len(o.V) < 50 {
-		o.V = append(o.V, Violation{Prop: prop, Rule: rule, Seq: seq, What: fmt.Sprintf(f, a...)})
+		o.V = append(o.V, Violation{Prop: prop, Rule: rule, Seq: seq, What: fmt.Sprintf(f, a...), Class: o.tainted})
 	}
 }
 
@@ -188,6 +196,10 @@ func (o *Oracle) Feed(rec *Record) {
 		}
 	case "restart":
 		if rec.Res == "" && rec.Panic == "" {
+			if havePre && o.bootMember[ev.N] && pre.Disk != nil && pre.Disk.Last == 0 && pre.Disk.SI == 0 && pre.Disk.Term == 0 && pre.Disk.Commit == 0 {
+				o.emptyRestart[ev.N] = true
+				o.S.EmptyRestarts++
+			}
 			o.S.Restarts++
 			t := o.track(ev.N)
 			t.incarnation++
@@ -309,6 +321,9 @@ func (o *Oracle) Feed(rec *Record) {
 	// ---- node states ----
 	for i := range rec.Nodes {
 		s := &rec.Nodes[i]
+		if rec.S == 0 && rec.Ev.K == "init" && s.Alive {
+			o.bootMember[s.ID] = true
+		}
 		t := o.track(s.ID)
 		prev := t.last
 		hadPrev := t.have
@@ -358,6 +373,9 @@ func (o *Oracle) Feed(rec *Record) {
 				}
 			}
 			if t.wasLeaderAt != s.Term {
+				if o.emptyRestart[s.ID] && o.tainted == "" {
+					o.tainted = "leader-after-empty-storage-restart"
+				}
 				// newly became leader: C03 (a) every entry reported committed before is in its log
 				t.wasLeaderAt = s.Term
 				idxs := make([]uint64, 0, len(o.chosen))
